@@ -3,6 +3,7 @@ operations, decided on the operation model (abstract interpretation of Process::
 constraint polynomials."""
 import re, collections
 from .mirutil import *
+from .mirsym import Interp, Term, Agg, Ptr, Opaque, Unanalysable, PanicReached
 from .mirsym import Poly, Sup, Term, P
 from . import opmodel, procmodel, docspec
 from .rules_c04 import AirView, unit_multiple, doc_instances
@@ -441,6 +442,63 @@ def r6_trace_len(ctx, F):
         ctx.violation("trace-len-rand-rows", fn.loc(t["ln"]), "NUM_RAND_ROWS is not added before rounding the trace length")
 
 
+def flat_sum(v):
+    """leaves of a tree of additions"""
+    if isinstance(v, Term) and v.op in ("+", "+?") and len(v.args) == 2:
+        return flat_sum(v.args[0]) + flat_sum(v.args[1])
+    return [v]
+
+
+def r6b_chiplet_rows(ctx, F):
+    """Chiplets::trace_len = hasher + bitwise + memory + kernel ROM rows + 1: the bus contribution of main row i is placed in
+    auxiliary row i+1 and the last NUM_RAND_ROWS auxiliary rows are overwritten with random values, so the last chiplet row
+    must be followed by one padding row before the random rows (doc comment of Chiplets::trace_len; into_trace asserts
+    trace_len() + num_rand_rows <= trace length)"""
+    fn = F.fn(r"^miden_processor::chiplets::Chiplets::trace_len$")
+    adt = F.adt(r"^miden_processor::chiplets::Chiplets$")
+    fields = [f["name"] for f in adt["variants"][0]["fields"]]
+    I = Interp(F)
+    comps = {"hasher": r"hasher::Hasher::trace_len$", "bitwise": r"bitwise::Bitwise::trace_len$", "memory": r"memory::Memory::trace_len$", "kernel_rom": r"kernel_rom::KernelRom::trace_len$"}
+    for n, pat in comps.items():
+        I.overrides.append((re.compile(pat), (lambda n: lambda I, a, f: Term("rows_" + n))(n)))
+    selfv = Agg([Opaque(n) for n in fields], "adt", adt["id"], adt["variants"][0]["name"])
+    ctx.inst(key="Chiplets::trace_len", nontrivial=True)
+    try:
+        r = I.call(fn.id, [Ptr([selfv], 0)])
+    except (Unanalysable, PanicReached) as e:
+        ctx.violation("UNANALYSABLE|Chiplets::trace_len", fn.loc(), str(e)[:300])
+        return
+    leaves = sorted(repr(x) for x in flat_sum(r))
+    ctx.sample({"Chiplets::trace_len": leaves})
+    want = sorted(["rows_" + n for n in comps] + ["1"])
+    ok = leaves == want
+    ctx.oblig(ok)
+    if not ok:
+        ctx.violation("chiplet-rows", fn.loc(), "Chiplets::trace_len is the sum of %s; expected the four component lengths plus exactly one padding row (the last chiplet row's bus contribution lands in the following auxiliary row, which must not be a random row)" % leaves)
+    # into_trace refuses a trace length that would let random rows overwrite non-padding rows
+    it = F.fn(r"^miden_processor::chiplets::Chiplets::into_trace$")
+    calls = [c for bi, c, t in it.calls()]
+    ok = any(c.endswith("Chiplets::trace_len") for c in calls) and bool(panic_blocks(it))
+    ctx.oblig(ok)
+    if not ok:
+        ctx.violation("chiplet-into-trace-guard", it.loc(), "Chiplets::into_trace must check trace_len() + num_rand_rows <= trace length")
+    # component starts are cumulative sums in stacking order
+    starts = {"bitwise_start": ["rows_hasher"], "memory_start": ["rows_bitwise", "rows_hasher"], "kernel_rom_start": ["rows_bitwise", "rows_hasher", "rows_memory"], "padding_start": ["rows_bitwise", "rows_hasher", "rows_kernel_rom", "rows_memory"]}
+    for name, want in starts.items():
+        f2 = F.fn(r"^miden_processor::chiplets::Chiplets::%s$" % name)
+        ctx.inst(key="Chiplets::" + name, nontrivial=True)
+        try:
+            r = I.call(f2.id, [Ptr([selfv], 0)])
+        except (Unanalysable, PanicReached) as e:
+            ctx.violation("UNANALYSABLE|Chiplets::%s" % name, f2.loc(), str(e)[:300])
+            continue
+        leaves = sorted(repr(x) for x in flat_sum(r))
+        ok = leaves == want
+        ctx.oblig(ok)
+        if not ok:
+            ctx.violation("chiplet-start|%s" % name, f2.loc(), "Chiplets::%s is the sum of %s, expected %s" % (name, leaves, want))
+
+
 def run(ctx, F):
     ctx.trusted += ["rustc MIR via mirfacts", "mirsym abstract interpreter and the abstract Process model (vlib/procmodel.py)", "docs/src/design as oracle"]
     ctx.assumptions += ["handler values the model treats as fresh (u32 limbs, memory, advice, hasher results) are not substituted: those constraints are counted as undecided",
@@ -451,4 +509,5 @@ def run(ctx, F):
     ctx.run_rule("C03-R3", "substituting each handler path's next row / helper values into every stack transition constraint restricted to that operation gives the zero polynomial", r3_substitution, F, M)
     ctx.run_rule("C03-R4", "helper registers read by an operation's constraints are written by its handler; exactly prefix-100 operations request range checks", r4_helpers, F, M)
     ctx.run_rule("C03-R5", "decoder trace append methods push once per column on every path", r5_decoder_rows, F)
+    ctx.run_rule("C03-R6b", "chiplet rows = hasher + bitwise + memory + kernel ROM + one padding row; component starts are the cumulative sums", r6b_chiplet_rows, F)
     ctx.run_rule("C03-R6", "trace length = next_power_of_two(max(range rows, clk, chiplet rows) + NUM_RAND_ROWS), independent of capacity hints", r6_trace_len, F)
